@@ -201,6 +201,36 @@ func c24Build(s c24Sup, rnd *rand.Rand) c24Built {
 	return c24Built{pkt: pkt, hdrLen: cs + l4hdr, csumStart: cs, proto: proto}
 }
 
+// c24SteerZero changes one payload word of UDP segment k (0-based) of the built superpacket so that the checksum of that
+// segment COMPUTES to 0x0000 -- which has to go out as 0xffff (RFC 768; on IPv6 a zero field is illegal, RFC 8200 8.1).
+// Returns false when the segment has no aligned payload word.
+func c24SteerZero(s c24Sup, b *c24Built, k int) bool {
+	start := k * s.GSO
+	n := s.PayLen - start
+	if n > s.GSO {
+		n = s.GSO
+	}
+	if s.Proto != "udp" || n < 2 {
+		return false
+	}
+	cs := b.csumStart
+	var src, dst []byte
+	if s.Fam == 4 {
+		src, dst = b.pkt[12:16], b.pkt[16:20]
+	} else {
+		src, dst = b.pkt[8:24], b.pkt[24:40]
+	}
+	pay := b.pkt[b.hdrLen+start : b.hdrLen+start+n]
+	pay[0], pay[1] = 0, 0
+	acc := c24Pseudo(s.Fam, src, dst, unix.IPPROTO_UDP, 8+n)
+	acc = c24Sum(b.pkt[cs:cs+4], acc) // ports
+	acc = c24Sum([]byte{byte((8 + n) >> 8), byte(8 + n)}, acc)
+	acc = c24Sum(pay, acc)
+	w := uint16(0xffff - acc) // acc + w = 0xffff: the complement is zero
+	binary.BigEndian.PutUint16(pay, w)
+	return true
+}
+
 // c24Project judges one yielded segment without using anything of the code under test.
 func c24Project(s c24Sup, orig c24Built, origPkt []byte, seg []byte, payOff int) c24Seg {
 	out := c24Seg{Flags: []string{}}
@@ -331,11 +361,19 @@ type c24Line struct {
 	Err string   `json:"err,omitempty"`
 }
 
+var c24ZeroSeen, c24ZeroSteered int // UDP superpackets in which one segment's checksum computes to zero
+
 func c24Class(s c24Sup) string { return fmt.Sprintf("%s%d", s.Proto, s.Fam) }
 
 // c24Run segments one concretised superpacket through the chosen entry point and projects what is yielded.
 func c24Run(s c24Sup, via string, rnd *rand.Rand) c24Line {
 	b := c24Build(s, rnd)
+	if s.Proto == "udp" && s.GSO > 0 && rnd.Intn(3) == 0 {
+		nseg := (s.PayLen + s.GSO - 1) / s.GSO
+		if nseg > 0 && c24SteerZero(s, &b, rnd.Intn(nseg)) {
+			c24ZeroSteered++
+		}
+	}
 	origPkt := append([]byte(nil), b.pkt...)
 	line := c24Line{Ev: "seg", Via: via, Sup: s, Out: []c24Seg{}}
 	payOff := 0
@@ -423,6 +461,9 @@ func TestVerif_C24(t *testing.T) {
 		s := line.Sup
 		res.Hit(c24Class(s))
 		res.Hit("via:" + line.Via)
+		for ; c24ZeroSeen < c24ZeroSteered; c24ZeroSeen++ {
+			res.Hit(fmt.Sprintf("udp%d:segment-checksum-computes-to-zero", s.Fam))
+		}
 		switch {
 		case s.PayLen == 0:
 			res.Hit("header-only")
